@@ -75,6 +75,7 @@ class SymCtx(Ctx):
         # file name, say) cannot leak from one explored path into the next
         SymCtx._run += 1
         self._tmp_prefix = "/mem/r%d/" % SymCtx._run
+        L.reset_state()
 
     _run = 0
 
@@ -362,6 +363,7 @@ class ShimCtx(ConcreteCtx):
         symlibs.MemFiles.files.clear()
         SymCtx._run += 1
         self._tmp_prefix = "/mem/r%d/" % SymCtx._run
+        L.reset_state()
 
     def mod(self, name):
         return self.L.load(name)
